@@ -51,6 +51,9 @@ struct Scenario {
     seed: u32,
     #[serde(default)]
     holes: Vec<HoleJ>,
+    /// the stream takes at most this many bytes per write call (0 = whole writes)
+    #[serde(default)]
+    max_write: usize,
     steps: Vec<Step>,
 }
 
@@ -117,8 +120,10 @@ async fn run_scenario(sc: &Scenario, sink: &Sink) {
     let mut handle = Some(handle);
     let polls = Arc::new(AtomicU64::new(0));
 
+    let max_write = sc.max_write;
     let spawn = |mut session: Session, sink: &Sink, polls: &Arc<AtomicU64>| {
         let (io, ioh) = script_io(sink.clone());
+        ioh.set_max_write(max_write);
         let fut = async move {
             let r = session.run(Box::new(io)).await;
             (session, r)
